@@ -36,13 +36,18 @@ def env(extra=None):
 def run(cmd, cwd=None, timeout=None, extra_env=None, check=False):
     """Run a command, return (rc, stdout+stderr text, seconds)."""
     t0 = time.time()
+    # own session: on a time-out the whole process group (cargo -> kani -> cbmc ...) is killed, not just the direct child
+    p = subprocess.Popen(cmd, cwd=cwd, env=env(extra_env), stdout=subprocess.PIPE, stderr=subprocess.STDOUT, text=True, errors="replace", start_new_session=True)
     try:
-        p = subprocess.run(cmd, cwd=cwd, env=env(extra_env), stdout=subprocess.PIPE,
-                           stderr=subprocess.STDOUT, timeout=timeout, text=True, errors="replace")
-        rc, out = p.returncode, p.stdout
-    except subprocess.TimeoutExpired as e:
-        rc, out = 124, (e.stdout or "") if isinstance(e.stdout, str) else (e.stdout or b"").decode("utf8", "replace")
-        out += "\n[timeout]"
+        out, _ = p.communicate(timeout=timeout)
+        rc = p.returncode
+    except subprocess.TimeoutExpired:
+        try:
+            os.killpg(p.pid, 9)
+        except ProcessLookupError:
+            pass
+        out, _ = p.communicate()
+        rc, out = 124, (out or "") + "\n[timeout]"
     dt = time.time() - t0
     if check and rc != 0:
         raise Inconclusive("command failed (%s): %s\n%s" % (rc, " ".join(cmd), out[-4000:]))
